@@ -7,5 +7,5 @@ import json, os, sys
 sys.path.insert(0, os.path.join(os.path.dirname(os.path.abspath(__file__)), ".."))
 import vlib
 fp = vlib.source_fingerprints()
-json.dump({"repo_head": vlib.repo_head(), "files": fp}, open(os.path.join(vlib.VERIF, "fingerprints.json"), "w"), indent=1, sort_keys=True)
+json.dump({"repo_head": vlib.repo_head(), "files": fp, "literals": vlib.source_literals()}, open(os.path.join(vlib.VERIF, "fingerprints.json"), "w"), indent=1, sort_keys=True)
 print("%d files" % len(fp))
